@@ -443,11 +443,12 @@ class World:
 
     def hold(self, conf, reg, name=None):
         """obtain a palette from the configuration now and keep it: whatever becomes global later, it goes on
-        showing this configuration (as it was when the palette was obtained, or as it is now)"""
+        showing this configuration (as it was at some moment since the palette was obtained: the statement
+        does not say when a palette reads the configuration)"""
         nc = self.no_color
         pal = self.sut("get_palette", conf.get_palette) if name is None else self.sut(f"{name}(conf)", self.cls(name), conf)
         ids = sorted(set(reg.items) | {"NOPE.H"})
-        then = {sid: reg.style(sid, nc) for sid in ids}
+        then = {sid: {reg.style(sid, nc)} for sid in ids}      # every state the configuration showed since
         if len(self.held) >= 4:
             self.held.pop(0)
         self.held.append((pal, name, then))
@@ -456,6 +457,8 @@ class World:
     def check_held(self, reg):
         nc = self.no_color
         for pal, name, then in self.held:
+            for sid in list(then):
+                then[sid].add(reg.style(sid, nc))
             if name is None:
                 pairs = [(sid, None) for sid in list(then)[:: max(1, len(then) // 5)]] + \
                         [(sid, acc) for acc, sid in GLOBAL_ACCESSORS.items()]
@@ -471,14 +474,15 @@ class World:
                     if f is None:
                         continue
                 got = self.decode(f, "held-palette", sid)
-                was = then.get(sid, then.get("NOPE.H"))
                 now = reg.style(sid, nc)
+                seen = then.setdefault(sid, set(then.get("NOPE.H", ())))
+                seen.add(now)
                 self.stats["held_checks"] = self.stats.get("held_checks", 0) + 1
-                if got != was and got != now:
+                if got not in seen:
                     raise Violation("resolve", "held-palette:wrong-style",
                                     f"a palette obtained from the configuration earlier ({name or 'get_palette()'}) gives "
-                                    f"{fmt_style(got)} for id {sid!r}; the configuration said {fmt_style(was)} then and says "
-                                    f"{fmt_style(now)} now")
+                                    f"{fmt_style(got)} for id {sid!r}; since then the configuration has said "
+                                    f"{' / '.join(sorted(fmt_style(x) for x in seen))}")
 
     def touches_quarantine(self, reg, sid):
         if not self.quarantine:
